@@ -41,6 +41,8 @@ def check(run):
         # helpers this property stands on (rule sets owned by other properties, see common.deps)
         from common import deps as _deps
         _deps(run, F, 'isnone', 'casts')
+        if cfg == 'base':
+            _deps(run, F, 'ord')   # elements are compared through their own PartialOrd
         comparators(run, F)
         quantile(run, F)
         rank(run, F)
